@@ -431,7 +431,19 @@ def check_fallible(ctx, rule, unit, fn, calls, label, allowed_in_null=()):
                         return [s]
                     problems.append("%s used at %s before it was tested" % (canon(n).split("#")[0], n.loc))
                 return [s]
-            if s == "null":
+            if s in ("null", "null-returned"):
+                if n.kind == "InlinedReturn":
+                    # the failure arm sits in a folded helper: its `return nullptr` is the null that the caller hands on
+                    v = n.child("val")
+                    vs = v.strip() if v is not None else None
+                    if vs is not None and (vs.get("nullc") or v.get("nullc") or is_x(vs) or vs.cv() == 0 or vs.kind == "CXXNullPtrLiteralExpr"):
+                        return ["null-returned"]
+                    return [s]
+                if n.kind == "ReturnStmt" and s == "null-returned":
+                    v = n.child("val")
+                    if v is not None and v.strip().d.get("inlined"):
+                        tested[0] = True
+                        return [s]
                 if n.is_call() and not (n.callee and n.callee["uq"] in allowed_in_null):
                     if n.kind in ("CXXConstructExpr",) and n.callee and n.callee.get("trivial"):
                         return [s]
@@ -452,6 +464,13 @@ def check_fallible(ctx, rule, unit, fn, calls, label, allowed_in_null=()):
             return [s]
 
         def refine(cond, truth, s):
+            if s in ("null", "null-returned", "nonnull"):
+                # a later test of the same place (the caller's own test after a folded helper already tested it) prunes the
+                # arm that contradicts what is known
+                known = (s == "nonnull")
+                if not flow.refine_bool(cond, truth, lambda a: (known if is_x(a) else None), lambda a, v: None):
+                    return []
+                return [s]
             if s not in ("untested",):
                 return [s]
             box = [None]
@@ -515,6 +534,13 @@ def check_C04(ctx, unit):
             check_fallible(ctx, "N.realloc-alloc", unit, f, calls, lambda n: "allocate")
             if not any(bound_var(f, c) and bound_var(f, c)[0] == "var" for c in calls):
                 raise AnalysisBroken("anchor vanished: copying fallback allocate() in realloc")
+            if any(is_policy_call(n, pol, ("poison",)) for g in fns for n in g.events()):
+                from .rules_slab2 import realloc_exit_poisoned
+                left = realloc_exit_poisoned(unit, fns, f, pol)
+                ctx.inst("N.realloc-alloc", "%s::realloc: the source block when null is returned%s" % (POOL, inst[len(POOL):]), not left, f.loc,
+                         ("the return at %s is reached with the caller's block poisoned and not freed: after a failed moving "
+                          "realloc the still-live source block is inaccessible" % left[0]) if left else
+                         "no return is reached with the caller's block poisoned unless it was freed", f)
         bad = []
         for f in fns:
             for n in f.events():
